@@ -52,7 +52,7 @@ CHECKS["C08"] = (
     "Model/Surveys.v models concatenate-label-sort, numpy.unique and the offset indicator columns. Theorems: an accepted certificate "
     "(merge_check) implies the merged rows with the labels the implementation attached are a permutation of the labelled inputs (each row "
     "keeps its own survey), time-sorted, offset columns built from those labels; column 0 all ones, column j the indicator of the j-th "
-    "smallest key, the smallest key is the only offset-free survey, list input gives labels 0..m in order. The pinned code does NOT have the "
+    "smallest key, the smallest key is the only offset-free survey, list input gives labels 0..m in order. tools/py2v_design.py regenerates Gen/DesignGen.v from get_constant_term_design_matrix / get_trend_design_matrix (accepted only in the pinned statement forms) and Props/C08g.v proves the generated builders equal the model (constant row, then dt, dt^2, ..). The pinned code does NOT have the "
     "property: C08_pinned_code_refuted proves it on the faithful model merge_code; the check reports that as KNOWN-FINDING D5 and accepts "
     "per case either merge_check or code_check (pinned behaviour), so any other deviation is still a violation.",
     "Trusted: Coq kernel + vm_compute; harness recovery of the permutation from unique velocity tags; astropy unit conversion of later "
@@ -218,7 +218,8 @@ CHECKS["C04"] = (
     "C04_bayes_identity_real (Props/C04r.v) discharges the algebraic premises at R through a MathComp field structure on Coq's reals "
     "(Base/Rstruct.v): the identity holds for real matrices of every dimension and every x. Per run Coq evaluates check_bayes on every generated problem for a posterior draw returned by rejection_sample and a hand-built row: "
     "get_orbit(i).radial_velocity(t) (+ own offset) = M x; ln_unmarginalized_likelihood = Gaussian data term with sigma^2 + s^2; the identity on the "
-    "implementation's own two log-likelihood numbers; the exact rational identities; trend_M rows = (1, indicators, dt^i); samples.t_ref = data t_ref.",
+    "implementation's own two log-likelihood numbers; the exact rational identities; trend_M rows = (1, indicators, dt^i); samples.t_ref = data t_ref. "
+    "tools/py2v_design.py regenerates the two design-matrix builders from source (Gen/DesignGen.v); Props/C08g.v, built by this check too, proves every generated row is (1, indicators of the row's label, dt, dt^2, ..).",
     "Trusted: as C01; twobody's KeplerOrbit/PolynomialRVTrend evaluate the elements they are given (values at the data epochs are table inputs); "
     "for survey k>=1 the harness subtracts the row's own offset before calling ln_unmarginalized_likelihood; tolerances 1e-9 (curve), 1e-8 (ll), "
     "1e-6 (1+|ll|) (identity).",
